@@ -142,6 +142,7 @@ class FaultFS:
             op.content = content
             op.res = "?"
             self.ops.append(op)
+            self._log(op, "begin")      # an operation in flight on another thread when the process dies is still known
             hit = self._hit(op)
             if hit == "die_before":
                 self._log(op, "die_before")
@@ -418,15 +419,22 @@ def run_forked(fn, result_path, timeout=120):
 
 
 def read_trace(path):
-    out = []
+    """the operations of a run that streamed its trace to a file; an operation that was begun but never finished
+    (another thread made the process die meanwhile) has res == "inflight": its effect may or may not have happened"""
+    recs = {}
     if not os.path.exists(path):
-        return out
+        return []
     with builtins.open(path) as f:
         for line in f:
             line = line.strip()
             if line:
                 try:
-                    out.append(json.loads(line))
+                    d = json.loads(line)
                 except ValueError:
-                    pass       # a line cut by the death of the process
+                    continue       # a line cut by the death of the process
+                recs[d["g"]] = d
+    out = [recs[g] for g in sorted(recs)]
+    for d in out:
+        if d["res"] == "begin":
+            d["res"] = "inflight"
     return out
